@@ -1,5 +1,6 @@
 import BV.Gen.LedgerSkel
 import BV.Lemmas.AllocSkelChk
+import BV.Lemmas.AllocSkelInv
 /-!
 # C09, the temporaries inside one `encode_data` call: generated allocation skeletons are balanced
 
@@ -24,7 +25,7 @@ the checker is sound for the path semantics `BV.Skel.run`, for every script); `s
 the two together.
 -/
 namespace BV.Props.C09Skel
-open BV.Skel
+open BV.Skel BV.Ledger
 
 /-- inlining depth (the call trees are acyclic and at most 7 deep today) -/
 def fuel : Nat := 16
@@ -73,6 +74,49 @@ theorem skeleton_balanced_closed (r : RootIn) (hr : r ∈ rootsIn) (hi : r.2 = [
     obtain ⟨a, _, ha'⟩ := h2 p (by rw [hst]; exact List.mem_cons_self)
     rw [he] at ha'
     cases ha'
+
+/-! ## The same, read on the alloc / free EVENTS
+
+`run` writes an event log (`Ev.alloc` / `Ev.free` with block identities, the format of the counting allocator);
+`BV.Ledger.judge` is the independent spec-side replay of such a log.  `SInv` (proved for every skeleton and
+every script, `BV/Lemmas/AllocSkelInv.lean`) says the judge's live set is exactly "held by tracked places +
+lost".  With `skeleton_balanced` (nothing lost; only out-parameters hold blocks) this gives: -/
+
+/-- **skeleton_balanced_events**: for every covered root, on every path, the event log of the run (the old
+    log followed by the events of the run) is judged clean — no double free, no free of an unknown or foreign
+    block, no identity handed out twice — and its live set has changed by exactly the blocks that tracked
+    places hold at the exit minus those they held at the entry: every OTHER block allocated during the run was
+    freed during the run, once, through the allocator that produced it -/
+theorem skeleton_balanced_events (r : RootIn) (hr : r ∈ rootsIn) (sk : Sk) (hsk : rootSk r.1 = some sk)
+    (s : St) (hinv : SInv s) (hs : Abs (entryVars r.2 sk) s) (sc : List Nat) :
+    (∃ evs, (run sk (s, sc)).st.log = s.log ++ evs) ∧
+    (judge (run sk (s, sc)).st.log).clean = true ∧
+    (∀ b, (judge (run sk (s, sc)).st.log).live.count b + s.held.count b =
+      (judge s.log).live.count b + (run sk (s, sc)).st.held.count b) ∧
+    (∀ p ∈ (run sk (s, sc)).st.store, ∃ a, p.1.head? = some a ∧ a ∈ r.1.2.2) := by
+  obtain ⟨h1, h2⟩ := skeleton_balanced r hr sk hsk s hs sc
+  have hi' := SInv.run sk s sc hinv
+  refine ⟨run_log_prefix sk s sc, (BV.Ledger.clean_iff_bad _).mpr hi'.bad, ?_, h2⟩
+  intro b
+  rw [hi'.live b, hinv.live b, h1]
+  omega
+
+/-- roots without entry- and out-parameters (`WriteMetaBlockInternal`, the three store functions, the two Zopfli
+    front ends): the live set of the event log after the run EQUALS the live set before it -/
+theorem skeleton_balanced_events_closed (r : RootIn) (hr : r ∈ rootsIn) (hi : r.2 = []) (he : r.1.2.2 = [])
+    (sk : Sk) (hsk : rootSk r.1 = some sk) (s : St) (hinv : SInv s) (hs : s.store = []) (sc : List Nat) :
+    (judge (run sk (s, sc)).st.log).clean = true ∧
+    ∀ b, (judge (run sk (s, sc)).st.log).live.count b = (judge s.log).live.count b := by
+  have ha : Abs (entryVars r.2 sk) s := by intro p hp; rw [hs] at hp; cases hp
+  obtain ⟨_, hc, hl, _⟩ := skeleton_balanced_events r hr sk hsk s hinv ha sc
+  obtain ⟨_, hst⟩ := skeleton_balanced_closed r hr hi he sk hsk s hs sc
+  refine ⟨hc, fun b => ?_⟩
+  have := hl b
+  simp [St.held, hs, hst] at this
+  exact this
+
+/-- non-vacuity: the hypotheses are met by a fresh ledger -/
+example : SInv ({ m8 := 3 } : St) ∧ ({ m8 := 3 } : St).store = [] := ⟨SInv.init 3, rfl⟩
 
 /-- the two lists are generated side by side -/
 theorem roots_aligned : BV.Gen.skelRoots.length = BV.Gen.skelRootsIn.length := by decide
